@@ -54,3 +54,61 @@ Proof. exact ryu_reads_back_instance. Qed.
 Example C15_literal_kept_instance :
   num_image (mkCfg false false true false) [45; 48; 46; 53; 48]%N = Some (VNum (NLit [45; 48; 46; 53; 48]%N)).
 Proof. exact literal_kept_instance. Qed.
+
+(* ---- arbitrary_precision: the private Number protocol node (SNumLit) included — Proofs/SerToValueAp.v ---- *)
+From SJ Require Import Base.Bytes Base.Utf8 Base.FloatB Gen.Tables Model.Read Model.Num Model.Value Model.De Model.Sval Model.Ser Model.ValueSer
+  Spec.Syntax Spec.Denote Spec.Layout
+  Proofs.NumInt Proofs.GrammarNum Proofs.GrammarFinal Proofs.ApNumber
+  Proofs.SerUtf8 Proofs.SerBase Proofs.SerHint Proofs.SerRender Proofs.SerWf Proofs.SerDenote Proofs.SerValue Proofs.SerToValue
+  Proofs.SerWriter Proofs.SerMain Proofs.SerFinal.
+From Flocq Require Import Core BinarySingleNaN.
+From Coq Require Import Lia ZifyBool ZifyN ZifyNat.
+From SJ Require Import Proofs.SerToValueAp.
+Theorem C15_ap_same_success : forall cf fmt32 fmt64 v, arbitrary_precision cf = true -> ryu_json fmt32 fmt64 ->
+  wfs v = true ->
+  ((exists j, to_value cf fmt32 fmt64 v = Ok j) <-> (exists bufs, serialize cf fmt32 fmt64 Compact v = Ok bufs)).
+Proof. exact SerToValueAp.C15_ap_same_success. Qed.
+Print Assumptions C15_ap_same_success.
+
+Theorem C15_ap_same_rejection : forall cf fmt32 fmt64 v, arbitrary_precision cf = true -> ryu_json fmt32 fmt64 ->
+  wfs v = true ->
+  ((exists e, to_value cf fmt32 fmt64 v = Err e O /\ (e = KeyMustBeAString \/ e = FloatKeyMustBeFinite))
+   <-> (exists e, serialize cf fmt32 fmt64 Compact v = Err e O /\ (e = KeyMustBeAString \/ e = FloatKeyMustBeFinite))).
+Proof. exact SerToValueAp.C15_ap_same_rejection. Qed.
+Print Assumptions C15_ap_same_rejection.
+
+Theorem C15_ap_same_value : forall cf fmt32 fmt64 v j bufs, arbitrary_precision cf = true -> ryu_json fmt32 fmt64 ->
+  wfs v = true ->
+  to_value cf fmt32 fmt64 v = Ok j -> serialize cf fmt32 fmt64 Compact v = Ok bufs ->
+  exists c, concat bufs = render c /\ wfb c = true /\ denote cf c = Some j.
+Proof. exact SerToValueAp.C15_ap_same_value. Qed.
+Print Assumptions C15_ap_same_value.
+
+Theorem C15_ap_parse_back : forall cf fmt32 fmt64 v j bufs, arbitrary_precision cf = true -> ryu_json fmt32 fmt64 ->
+  wfs v = true ->
+  to_value cf fmt32 fmt64 v = Ok j -> serialize cf fmt32 fmt64 Compact v = Ok bufs ->
+  (forall c, concat bufs = render c -> limit_disabled cf = false -> (cdepth c <= 127)%nat) ->
+  from_input (mkEnv RSlice TEof cf) (concat bufs) = Ok j.
+Proof. exact SerToValueAp.C15_ap_parse_back. Qed.
+Print Assumptions C15_ap_parse_back.
+
+Theorem C15_numlit_verbatim : forall cf fmt32 fmt64 l, arbitrary_precision cf = true -> number_text_ok l = true ->
+  serialize cf fmt32 fmt64 Compact (SNumLit l) = Ok [l]
+  /\ to_value cf fmt32 fmt64 (SNumLit l) = Ok (VNum (NLit l))
+  /\ from_input (mkEnv RSlice TEof cf) l = Ok (VNum (NLit l)).
+Proof. exact SerToValueAp.C15_numlit_verbatim. Qed.
+Print Assumptions C15_numlit_verbatim.
+
+Theorem C15_value_with_numbers : forall cf fmt32 fmt64 v, arbitrary_precision cf = true -> ryu_json fmt32 fmt64 ->
+  wf_value cf v = true ->
+  to_value cf fmt32 fmt64 (sval_of_value v) = Ok v
+  /\ exists bufs c, serialize cf fmt32 fmt64 Compact (sval_of_value v) = Ok bufs /\ concat bufs = render c /\ denote cf c = Some v
+     /\ ((limit_disabled cf = false -> (cdepth c <= 127)%nat) -> from_input (mkEnv RSlice TEof cf) (concat bufs) = Ok v).
+Proof. exact SerToValueAp.C15_value_with_numbers. Qed.
+Print Assumptions C15_value_with_numbers.
+
+Theorem C15_number_text_ok_iff : forall l,
+  number_text_ok l = true <-> exists n, num_ok n = true /\ l = render_num n.
+Proof. exact SerToValueAp.number_text_ok_iff. Qed.
+Print Assumptions C15_number_text_ok_iff.
+
